@@ -4,12 +4,18 @@ import SgVerif.Common.Proto
 C21 driver.  One line per generated workload (see props/C21/check.py for how the harness output is canonicalised):
 
   c21 <precWork> <precTiming> <rateMode> { ACT id kind cost res,res,.. } { RES rid S|F } [ EQ S n k ]
+      { CAP rid mult t0:v0,t1:v1,.. } { EQH host threads }
      => { T now delta { A id remaining rate } { R rid load cap } } { E id start finish state } END t
 
 Numbers are exact rationals p/q (the doubles printed with %a by the harness).  For every sampling interval the driver
   * (monitor) checks: time is consistent, remaining never increases, no work without time, the load inferred from the
     drops of `remaining` and the reported load of every resource are within its capacity, equal execs progress at
     S·min(1,n/k), every activity ends DONE with remaining 0 reached exactly at its finish date, Σ drops = cost;
+  * (monitor, platform lane) `CAP`/`EQH` come from the generated platform DESCRIPTION (props/_shared/fluid/gen.py
+    `platform_tokens`: speed of the pstate in force × speed-profile scale in force × cores; bandwidth profile), never from
+    the kernel: during every step longer than the timing precision the reported and the received load of `rid` are within
+    `mult·v(t)`, and on an `EQH` host (all execs use `threads` cores, no bound, priority 1, never touched) each of the `k`
+    execs running during the step progresses at `v(t)·min(threads, cores/k)` (`equalShareT`, `equal_execs_share_threads`);
   * (model agreement) replays `Action.stepFull`'s arithmetic — `update_remains(rate·δ)` with the kernel's rate — from the
     previous sampled `remaining` and compares with the next sampled `remaining`.
 -/
@@ -40,6 +46,10 @@ structure Query where
   acts : List ActInfo
   fat : List String
   eq : Option (Rat × Nat × Nat)
+  /-- platform capacity timelines: (resource, multiplier, [(date, value in force from that date on)]) -/
+  caps : List (String × Rat × List (Rat × Rat)) := []
+  /-- uniform hosts: (host, threads of every exec) -/
+  eqh : List (String × Nat) := []
 
 structure Sample where
   now : Rat
@@ -56,6 +66,18 @@ structure EndRec where
 def parseKind : String → Option Kind
   | "e" => some .cpu | "c" => some .net | "i" => some .disk | _ => none
 
+def parseTimeline (s : String) : Option (List (Rat × Rat)) :=
+  (s.splitOn ",").mapM (fun e => match e.splitOn ":" with
+    | [t, v] => match parseRat t, parseRat v with
+      | some t, some v => some (t, v)
+      | _, _ => none
+    | _ => none)
+
+/-- drop the entries superseded at date `t` (the timeline is sorted; the head is the value in force) -/
+def advanceTl (t : Rat) : List (Rat × Rat) → List (Rat × Rat)
+  | a :: b :: rest => if b.1 ≤ t then advanceTl t (b :: rest) else a :: b :: rest
+  | l => l
+
 partial def parseQuery : List String → Query → Option Query
   | [], q => some q
   | "ACT" :: id :: k :: cost :: res :: rest, q =>
@@ -69,6 +91,14 @@ partial def parseQuery : List String → Query → Option Query
     match parseRat s, n.toNat?, k.toNat? with
     | some s, some n, some k => parseQuery rest { q with eq := some (s, n, k) }
     | _, _, _ => none
+  | "CAP" :: rid :: mult :: tl :: rest, q =>
+    match parseRat mult, parseTimeline tl with
+    | some m, some tl => parseQuery rest { q with caps := q.caps ++ [(rid, m, tl)] }
+    | _, _ => none
+  | "EQH" :: rid :: t :: rest, q =>
+    match t.toNat? with
+    | some t => parseQuery rest { q with eqh := q.eqh ++ [(rid, t)] }
+    | none => none
   | _, _ => none
 
 /-- parse the answer tokens into samples (reversed) and end records -/
@@ -126,6 +156,16 @@ def checkSample (q : Query) (prevNow : Rat) (s : Sample) (tr : List Track) : Out
   let mut tr := tr
   let mut out := Out.ok
   let mut inferred : List (String × Rat × Rat) := []     -- (activity, inferred rate, tolerance on it)
+  let mut live : List String := []                       -- activities that still had work to do when the step began
+  -- platform lane: value in force during the step = the one at its midpoint (the engine never steps over a speed or
+  -- bandwidth change of a resource in use); steps within the timing precision are not judged
+  let mid := prevNow + s.delta / 2
+  let plat := s.delta > q.prec.timing
+  let platCap := fun (rid : String) => match q.caps.find? (·.1 = rid) with
+    | some (_, m, tl) => match advanceTl mid tl with
+      | (_, v) :: _ => some (m, v)
+      | [] => none
+    | none => none
   for (id, rem, rate) in s.acts do
     match tr.find? (·.info.id = id) with
     | none => return (.dis s!"unknown activity {id}", tr)
@@ -146,6 +186,7 @@ def checkSample (q : Query) (prevNow : Rat) (s : Sample) (tr : List Track) : Out
           | .ok => out := .dis s!"{id} at {s.now}: model remains {m} impl {rem} (prev {t.prev} rate {rate} delta {s.delta})"
           | _ => pure ()
       if s.delta > 0 then inferred := (id, drop / s.delta, tol / s.delta) :: inferred
+      if t.prev > 0 then live := id :: live
       let z := match t.zeroAt with
         | some z => some z
         | none => if rem == 0 then some s.now else none
@@ -162,6 +203,16 @@ def checkSample (q : Query) (prevNow : Rat) (s : Sample) (tr : List Track) : Out
     let tt := users.foldl (fun m (_, _, t) => m + t) 0
     if tot > cap * (1 + relTol) + tt then
       out := .mon s!"work received on {rid} during the step ending at {s.now} is {tot} per second, capacity {cap}"
+    -- the same two against the capacity the PLATFORM DESCRIPTION gives for this step
+    if plat then
+      match platCap rid with
+      | some (m, v) =>
+        let pc := m * v
+        if load > pc * (1 + relTol) + relTol then
+          out := .mon s!"reported load {load} of {rid} exceeds the platform capacity {pc} in force during the step ending at {s.now}"
+        if tot > pc * (1 + relTol) + tt then
+          out := .mon s!"work received on {rid} during the step ending at {s.now} is {tot} per second, platform capacity {pc}"
+      | none => pure ()
   -- monitor: equal execs
   match q.eq with
   | some (S, n, k) =>
@@ -171,6 +222,20 @@ def checkSample (q : Query) (prevNow : Rat) (s : Sample) (tr : List Track) : Out
         if rabs (r - want) > want * relTol + t then
           out := .mon s!"equal exec {id} progressed at {r}, expected S*min(1,n/k) = {want}"
   | none => pure ()
+  -- monitor: k equal execs (threads cores each) running on an n-core host of speed S(t) each progress at S·min(threads, n/k)
+  if plat then
+    for (h, th) in q.eqh do
+      match platCap h with
+      | some (n, S) =>
+        let mine := inferred.filter (fun (id, _, _) => live.contains id && (match q.acts.find? (·.id = id) with
+          | some a => decide (a.kind = .cpu) && a.res.contains h
+          | none => false))
+        let k := mine.length
+        let want := equalShareT S n.floor.toNat k th
+        for (id, r, t) in mine do
+          if rabs (r - want) > want * relTol + t then
+            out := .mon s!"exec {id} on {h} progressed at {r} during the step ending at {s.now}: {k} equal execs of {th} thread(s) on {n} cores of speed {S} must each progress at S*min(threads,n/k) = {want}"
+      | none => pure ()
   return (out, tr)
 
 def checkEnd (q : Query) (tr : List Track) (e : EndRec) : Out :=
